@@ -541,6 +541,13 @@ func (st *tunnelServerStream) readMsgLocked() (data []byte, ok bool, err error) 
 
 		in, ok := st.receiver.dequeue()
 		if !ok {
+			// If the stream was cancelled while we were waiting (deadline,
+			// cancellation or tunnel teardown), the receiver has discarded
+			// its queue: report the context error, not end-of-stream (and
+			// never a nil error, which the caller would take for a message).
+			if err := st.ctx.Err(); err != nil {
+				return nil, true, err
+			}
 			var err error
 			if halfClosedErr := st.halfClosed.Load(); halfClosedErr != nil {
 				err = halfClosedErr.error
